@@ -241,3 +241,25 @@ where
             .map_err(BridgeError::SerializeView)
     }
 }
+
+#[cfg(crux_verif)]
+impl<A> BridgeWithSerializer<A>
+where
+    A: App,
+{
+    /// Verification hook (read-only): `(id, kind)` of every entry of the resolve registry.
+    pub fn verif_registry(&self) -> Vec<(u32, u8)> {
+        self.registry.verif_entries()
+    }
+}
+
+#[cfg(crux_verif)]
+impl<A> Bridge<A>
+where
+    A: App,
+{
+    /// Verification hook (read-only): `(id, kind)` of every entry of the resolve registry.
+    pub fn verif_registry(&self) -> Vec<(u32, u8)> {
+        self.inner.verif_registry()
+    }
+}
